@@ -8,6 +8,7 @@ miss=0
 for d in seeded/$pat/; do
   [ -f "$d/patch.diff" ] || continue
   name=$(basename $d)
+  if grep -q '"neutralised_by"' $d/meta.json; then echo "skipped $name (neutralised by a later fix: commit, see meta.json)"; continue; fi
   wt=/var/tmp/nucs-selftest-$$-$name
   git -C /repo worktree add -q --detach $wt HEAD || { echo "worktree failed"; exit 2; }
   if ! git -C $wt apply "$PWD/$d/patch.diff"; then echo "$name: patch does not apply"; git -C /repo worktree remove --force $wt; miss=1; continue; fi
